@@ -334,6 +334,7 @@ PROPS["C18"] = {
     "theorems": [
         "GstProofs.C18.rotation_roundtrip", "GstProofs.C18.factors_roundtrip", "GstProofs.C18.factors_whitened",
         "GstProofs.C18.rank_monotone", "GstProofs.C18.hermite_orthogonal_below_12",
+        "GstProofs.C18.extend_roundtrip", "GstProofs.C18.extend_ends", "GstProofs.C18.extend_mono",
     ],
     "harnesses": ["vh_c18"],
     "level": "proof",
